@@ -390,7 +390,7 @@ theorem storeInv_set {s : PStore ℝ} (hs : StoreInv s) (k : Nat) {p : Param ℝ
   · cases hq; exact hp
   · exact hs i q hq
 
-/-- one call of construct / copy / convert / assign / setValue (plain or auto-correcting) /
+/-- one call of construct / copy / convert (plain → auto-correcting, and the slicing copy back) / assign / setValue (plain or auto-correcting) /
 setPrecision / setConstraint / removeConstraint keeps the invariant, whether it raises or not -/
 theorem step_inv (s : PStore ℝ) (op : POp ℝ) (hs : StoreInv s) : StoreInv (POp.step s op).1 := by
   cases op with
@@ -405,6 +405,11 @@ theorem step_inv (s : PStore ℝ) (op : POp ℝ) (hs : StoreInv s) : StoreInv (P
     · next p h => exact storeInv_set hs dst (hs src p h)
     · exact hs
   | toAuto src dst =>
+    simp only [POp.step]
+    split
+    · next p h => exact storeInv_set hs dst ⟨Inv_congr rfl rfl (hs src p h).1, (hs src p h).2⟩
+    · exact hs
+  | toPlain src dst =>
     simp only [POp.step]
     split
     · next p h => exact storeInv_set hs dst ⟨Inv_congr rfl rfl (hs src p h).1, (hs src p h).2⟩
@@ -475,7 +480,7 @@ theorem reject_unchanged (s : PStore ℝ) (op : POp ℝ) (e : PErr) (h : (POp.st
 (copies are independent objects) -/
 theorem step_other (s : PStore ℝ) (op : POp ℝ) (i : Nat)
     (hi : match op with
-      | .construct k _ _ _ _ => i ≠ k | .copy _ d => i ≠ d | .toAuto _ d => i ≠ d | .assign _ d => i ≠ d
+      | .construct k _ _ _ _ => i ≠ k | .copy _ d => i ≠ d | .toAuto _ d => i ≠ d | .toPlain _ d => i ≠ d | .assign _ d => i ≠ d
       | .setValue k _ => i ≠ k | .setPrecision k _ => i ≠ k | .setConstraint k _ => i ≠ k | .removeConstraint k => i ≠ k) :
     (POp.step s op).1 i = s i := by
   cases op <;> simp only [POp.step] <;> (repeat' split) <;> simp_all [PStore.set]
